@@ -223,14 +223,25 @@ Definition week_window_okb (z : tz) (cd : cdur) (ts : Z) : bool :=
   (cd_mult cd =? 1)
   && (offset_at z (sec_of ts) =? 0) && (offset_at z (sec_of (time_truncate ts (cd_duration cd))) =? 0).
 
+(** "M": the local midnights of the first of ts's month and of the first of the next month are regular *)
+Definition month_window_okb (z : tz) (ts : Z) : bool :=
+  let '(y, m, _) := local_civil z ts in
+  let d0 := days_of_civil y m 1 in
+  let d1 := if m =? 12 then days_of_civil (y + 1) 1 1 else days_of_civil y (m + 1) 1 in
+  cross_okb z (d0 * SPD) && cross_okb z (d1 * SPD).
+
+(** "Y": the location has the same UTC offset at ts and at the window start (Truncate is absolute) *)
+Definition year_window_okb (z : tz) (cd : cdur) (ts : Z) : bool :=
+  offset_at z (sec_of ts) =? offset_at z (sec_of (time_truncate ts (cd_duration cd))).
+
 (** domain of C31_window_* : which (zone, candle duration, timestamp) triples are covered *)
 Definition window_okb (z : tz) (cd : cdur) (ts : Z) : bool :=
   let sx := cd_suffix cd in
   mult_okb cd &&
   (if String.eqb sx "D" then day_window_okb z ts
    else if String.eqb sx "W" then week_window_okb z cd ts
-   else if String.eqb sx "M" then false          (* differential only, see notes/C31.md *)
-   else if String.eqb sx "Y" then false          (* differential only *)
+   else if String.eqb sx "M" then month_window_okb z ts
+   else if String.eqb sx "Y" then year_window_okb z cd ts
    else true).
 
 (** TimeframeFromDuration prints [d] without loss: d is an exact multiple of the unit it is printed in
